@@ -8,6 +8,7 @@
   form, cell ranges, flat cells, NUNIQ range iterators) — see DESIGN.md §10.
 -/
 import MocVerif.Lemmas.Cells
+import MocVerif.Lemmas.CellView
 import MocVerif.Model.Params
 
 namespace Moc.C05
@@ -51,6 +52,37 @@ theorem cell_step (q : Qty) (hq : q.dim = 1 ∨ q.dim = 2) (w s e : Nat) (hse : 
     let r := nextCell q w s e
     s < r.2 ∧ r.2 ≤ e ∧ r.1.1 ≤ q.maxDepth w ∧ rangeOfCell q w r.1 = (s, r.2) :=
   nextCell_spec q hq w s e hse
+
+/-- `Valid` gives the alignment hypothesis of the cell-view theorems. -/
+theorem aligned_of_valid (q : Qty) (w d : Nat) (l : List Rng) (h : Valid q w d l) :
+    Aligned (2 ^ q.shiftFromMax w d) l := by
+  have := h.2.2
+  unfold Qty.cellSize at this
+  simpa [Nat.shiftLeft_eq] using this
+
+/-- **Cell view of a whole MOC is lossless**: for every valid MOC (any quantity of dimension 1 or 2,
+    any index width, any depth ≤ MAX_DEPTH) converting the ranges to hierarchical cells
+    (`CellMOCIteratorFromRanges`) and reading the cells back (`RangeMOCIteratorFromCells`) returns
+    exactly the original ranges. -/
+theorem cells_roundtrip (q : Qty) (hq : q.dim = 1 ∨ q.dim = 2) (w d : Nat) (hd : d ≤ q.maxDepth w)
+    (l : List Rng) (h : Valid q w d l) : rangesOfCells q w (cellsOf q w d l) = l :=
+  rangesOfCells_cellsOf q hq w d hd l h.1 (aligned_of_valid q w d l h)
+
+/-- The cells cover exactly the MOC (no index lost, none added). -/
+theorem cells_cover (q : Qty) (hq : q.dim = 1 ∨ q.dim = 2) (w d : Nat) (hd : d ≤ q.maxDepth w)
+    (l : List Rng) (h : Valid q w d l) (x : Nat) :
+    mem x ((cellsOf q w d l).map (rangeOfCell q w)) ↔ mem x l := by
+  have hc : ∀ lo (t : List Rng), CanonFrom lo t → ∀ r ∈ t, r.1 ≤ r.2 := by
+    intro lo t
+    induction t generalizing lo with
+    | nil => intro _ r hr; cases hr
+    | cons a t ih =>
+      intro hct r hr
+      cases hr with
+      | head => exact Nat.le_of_lt hct.2.1
+      | tail _ hm => exact ih _ hct.2.2 r hm
+  exact cellsOf_cover q hq w d hd l (hc 0 l h.1) (aligned_of_valid q w d l h) x
+
 
 /-! Non-vacuity -/
 example : (5 : Nat) < 12 * 4 ^ 0 ∧ (4 : Nat) ≤ 17 := by decide
